@@ -23,6 +23,8 @@ RULE = ("Each case is one market with a generated tick size (powers of two 2^-10
         "arithmetic: exact multiple -> unchanged; power-of-two tick -> exactly floor/ceil(P/T)*T; otherwise on the grid "
         "up to 2^-50 relative, never more aggressive than P by more than P*2^-50, moved by < T + P*2^-50. Non-trivial = "
         "case containing an off-grid price; distinct by hash of (tick, prices).")
+RULE = RULE + (" (events) the runs of C14's order-mistake part and of C15 judged by the same tick oracle alone: the price an event hands to the market "
+               "(market price x (1 + rate); the asked price clipped into the band) is a limit price like any other and must be accepted on the grid, rounded away from aggressiveness.")
 ASSUMPTIONS = ["2^-50 relative slack covers the two float roundings (quotient, product) the statement allows as 'floating-point representation of the grid'"]
 
 DYADIC = [2.0 ** k for k in range(-10, 4)]
@@ -105,6 +107,35 @@ def check_case(case):
 
 
 PARTS = {"direct": {"check": check_case, "strategy": lambda tier: cases(), "budget": {"quick": 12000, "thorough": 150000}}}
+
+
+# -- prices that events compute (fat-finger price, clipped price) reach the market as limit prices too -------------------------
+
+TICK_MARKERS = ("on-grid", "exact domain", "not on the grid", "more aggressive", "by a tick or more")
+
+
+@st.composite
+def _event_cases(draw, tier):
+    from . import c14, c15
+    if draw(st.booleans()):
+        return {"family": "mistake", "case": draw(c14.mistake_cases(tier))}
+    return {"family": "limit", "case": draw(c15.cases(tier))}
+
+
+def _event_check(case):
+    """C14's and C15's runs, judged here only by the tick oracle: the price the event hands to the market (market price x
+    (1 + rate); the asked price clipped into the band) must be accepted on the grid, rounded away from aggressiveness."""
+    from . import c14, c15
+    try:
+        info = (c14.mistake_check if case["family"] == "mistake" else c15.check_case)(case["case"])
+    except Violation as v:
+        if any(mk in v.message for mk in TICK_MARKERS):
+            raise Violation("C19.tick_rounding_of_event_prices", f"({case['family']}) {v.message}")
+        return CaseInfo(nontrivial=False, classes=["other_property_violated"], sample={"family": case["family"]})
+    return CaseInfo(nontrivial=info.nontrivial, classes=[case["family"]], steps=getattr(info, "steps", 0), sample={"family": case["family"]})
+
+
+PARTS["events"] = {"check": _event_check, "strategy": _event_cases, "budget": {"quick": 2000, "thorough": 30000}}
 
 
 def vacuity(merged, tier):
